@@ -292,7 +292,7 @@ def _b(d):
     return bytes(d)
 
 
-def run_recv_script(stream, script, segs=None, ending="eof", ws_kwargs=None, timeout=5, head_cuts=None, max_timeouts=50, nonblocking=False, tls=False):
+def run_recv_script(stream, script, segs=None, ending="eof", ws_kwargs=None, timeout=5, head_cuts=None, max_timeouts=50, nonblocking=False, tls=False, half_closed=False):
     """Run `script` (list of (name, control_frame)) against `stream` delivered
     behind the handshake response.  segs: list of bytes/(TIMEOUT,None) items
     for the frame part (default: one segment).  Returns dict with the observed
@@ -371,6 +371,9 @@ def run_recv_script(stream, script, segs=None, ending="eof", ws_kwargs=None, tim
                 c.peer_reset()
         peer.on_open = on_open
     w.connect("ws://sim.test/", socket=so)
+    if half_closed:
+        # the client has started the closing handshake itself and goes on receiving what the server still sends
+        w.send_close()
     if nonblocking:
         # switch to non-blocking mode after the opening handshake, as an event-loop integration would
         w.settimeout(0)
@@ -406,7 +409,7 @@ def run_recv_script(stream, script, segs=None, ending="eof", ws_kwargs=None, tim
                     # nothing to read right now: come back when the next segment is there
                     wouldblocks += 1
                     tries += 1
-                    if not w.connected or so._closed:
+                    if (not w.connected and not half_closed) or so._closed:
                         post_timeout_bad.append((len(trace), w.connected, so._closed))
                     sched.CURRENT.sleep(0.5)
                     continue
@@ -414,7 +417,7 @@ def run_recv_script(stream, script, segs=None, ending="eof", ws_kwargs=None, tim
                     # an injected timeout: the call is retried
                     timeouts += 1
                     tries += 1
-                    if not w.connected or so._closed:
+                    if (not w.connected and not half_closed) or so._closed:
                         post_timeout_bad.append((len(trace), w.connected, so._closed))
                     continue
                 out = ("exc", k, repr(e)[:120], repo_frame_of(e))
@@ -424,7 +427,7 @@ def run_recv_script(stream, script, segs=None, ending="eof", ws_kwargs=None, tim
         wr = [(f.opcode, f.payload, f.fin, f.masked, f.rsv) for f in frames]
         trace.append({"call": name, "cf": cf, "out": out, "writes": wr, "write_rest": len(written) - rest,
                       "consumed": conn.consumed - resp_len})
-        if out[0] == "exc" or (name != "recv_frame" and not w.connected):
+        if out[0] == "exc" or (name != "recv_frame" and not w.connected and not half_closed):
             break
     return {"trace": trace, "timeouts": timeouts, "wouldblocks": wouldblocks, "post_timeout_bad": post_timeout_bad, "conn": conn, "ws": w,
             "sock": so, "peer": peer, "resp_len": resp_len}
